@@ -221,6 +221,9 @@ func (a *AddressMapArray) Decode(r stdio.Reader) (err error) {
 	if err != nil {
 		return errors.WithMessage(err, "decoding array length")
 	}
+	if mapLen < 0 {
+		return errors.Errorf("negative array length: %d", mapLen)
+	}
 
 	a.Addr = make([]map[BackendID]Address, mapLen)
 	for i := range mapLen {
